@@ -9,7 +9,7 @@ ENGINES = [ENGINE]
 RULE = ('case = scratch configuration (relay list kind, v4/v6 client, databytes, qmail-queue plan) + a history of client segments over '
         '{HELO/EHLO good/bad, MAIL valid/bounce/SIZE/BODY/unknown/bad parameter/bad syntax/unknown local sender, RCPT local existing/unknown/remote/'
         'no MX/null MX/bad syntax/extra parameter, DATA + payload (dot lines, Received floods, 8-bit, anomalies), RSET, NOOP, VRFY, AUTH, STARTTLS, POST, '
-        'garbage, pipelined groups, split lines, QUIT}; the real Qsmtpd is driven in lock step and its reply codes, hand-offs (envelope, message) and '
+        'garbage, pipelined groups, split lines, QUIT}, plus sessions of bounces with two to four recipients from clients authenticated by AUTH, relay clients by IP, or neither; the real Qsmtpd is driven in lock step and its reply codes, hand-offs (envelope, message) and '
         'connection end are compared with the extracted model; for simple sessions the extracted checkers trace_run/queue_run judge the '
         'implementation trace itself. non-trivial = a hand-off happened or a DATA was accepted in a session of more than 6 replies; distinct by case text')
 TRUSTED_BASE = TRUSTED_COMMON
@@ -26,4 +26,9 @@ DESIGN_REF = 'DESIGN.md section 5, C08'
 
 
 def gen_cases(engine, rng, tier):
-    return session_gen.gen(rng, 500 if tier == 'quick' else 12000)
+    out = session_gen.gen(rng, 500 if tier == 'quick' else 12000)
+    # bounces with several recipients from clients that are authenticated, relay clients by IP, or neither
+    for _ in range(120 if tier == 'quick' else 3000):
+        cfg = 'relay=%s;ip=%s;databytes=0;qq=ok,ok,ok,ok;auth=%s' % (rng.choice(['none', 'none', 'listed']), rng.choice(['v4', 'v6']), rng.choice(['1', '1', '1', '0']))
+        out.append(session_gen.case(cfg, session_gen.bounce_session(rng)))
+    return out
